@@ -1,18 +1,18 @@
 SPECIFICATION Spec
 CONSTANTS
   Sel <- CodeSel
-  Calls <- OnlyOp
+  Calls <- TwoCalls
   Datagram = FALSE
   ReleaseOnWriteFail = TRUE
-  Cbs <- ThreeCbs
-  Closers <- TwoClosers
+  Cbs <- OneCb
+  Closers <- OneCloser
   Shutters <- NoShutters
   HasReader = TRUE
   ClosesSocket = TRUE
   PopAtomic = TRUE
   WriteWakes = {"ctx", "sock"}
   LockWakes = {"ctx"}
-  CloseTakesWriteLock = FALSE
+  CloseTakesWriteLock = TRUE
   ParkWakes = "conn"
   Noise = {"silent", "unsolicited", "garbage"}
 INVARIANTS NoFalseError SlotsSane OnceEach SockOnce DoneOnceIfReaderOnly
